@@ -101,6 +101,13 @@ def render_error(e):
             return str(x)
         except RecursionError:
             return "<" + x.type() + "> (Recursion too deep)"
+        except CklRuntimeError as inner:
+            # an object whose _str_ member fails: that error is reported
+            # in place of the text
+            why = inner.msg
+            if not isinstance(why, str):
+                why = why.value if why.isString() else "<" + why.type() + ">"
+            return "<" + x.type() + "> (" + why + ")"
 
     lines = [
         text(e.value.value if e.value.isString() else e.value)
